@@ -427,6 +427,7 @@ func (c *Client) beginPQHiddenHandshake(buf []byte) error {
 		logrus.Errorf("client: unable to make a hidden request: %s", err)
 		return err
 	}
+	c.setHSDeadline()
 
 	// Server Response hidden
 	msgLen, _, _, _, err := c.underlyingConn.ReadMsgUDP(buf, nil)
